@@ -175,6 +175,11 @@ def generate(rng):
                 cases.append({"kind": kind, "content": content, "pre": pre, "inject": "late-failure"})
             for pt in injection_points(kind):
                 cases.append({"kind": kind, "content": content, "pre": pre, "inject": pt})
+            if kind == "treeinfo":
+                # the same faults while an explicit main variant is requested (TreeInfo.dump has its own signature)
+                cases.append({"kind": kind, "content": content, "pre": pre, "inject": None, "main_variant": True})
+                for pt in injection_points(kind):
+                    cases.append({"kind": kind, "content": content, "pre": pre, "inject": pt, "main_variant": True})
     return cases
 
 
@@ -216,7 +221,9 @@ def impl(case):
             restore = (klass, meth, orig)
         try:
             try:
-                if case.get("dest") == "pathlib":
+                if case.get("main_variant"):
+                    obj.dump(path, main_variant=sorted(obj.variants.variants)[-1])
+                elif case.get("dest") == "pathlib":
                     import pathlib
                     obj.dump(pathlib.Path(path))
                 else:
